@@ -6,7 +6,7 @@ use bio::data_structures::wavelet_matrix::WaveletMatrix;
 use bv::{BitVec, Bits, BitsMut};
 
 pub struct C17;
-const N_DIRECTED: u64 = 43;
+const N_DIRECTED: u64 = 45;
 
 const BUILDS: [&str; 5] = ["fill-false+set", "fill-true+clear", "bit-by-bit-new", "push", "truncated"];
 
@@ -60,6 +60,11 @@ fn build(shadow: &[bool], how: usize) -> BitVec<u8> {
 
 impl C17 {
     fn rs_case(&self, ctx: &mut Ctx, shadow: &[bool], how: usize, k: usize, density: &str) {
+        self.rs_case_strided(ctx, shadow, how, k, density, 1)
+    }
+
+    /// `stride` > 1: queries only at every stride-th position plus the last 1500 (for vectors where a query costs O(n))
+    fn rs_case_strided(&self, ctx: &mut Ctx, shadow: &[bool], how: usize, k: usize, density: &str, stride: usize) {
         let n = shadow.len();
         let bits = build(shadow, how);
         let desc = |w: String| {
@@ -88,6 +93,9 @@ impl C17 {
             } else {
                 (None, None)
             };
+            if stride > 1 && i % stride != 0 && i + 1500 < n {
+                continue;
+            }
             let g1 = guard(|| rs.rank_1(i as u64));
             let g0 = guard(|| rs.rank_0(i as u64));
             ctx.eval(2);
@@ -111,6 +119,9 @@ impl C17 {
         for j in 0..=(n as u64 + 1) {
             let e1 = if j == 0 { None } else { pos1.get(j as usize - 1).copied() };
             let e0 = if j == 0 { None } else { pos0.get(j as usize - 1).copied() };
+            if stride > 1 && j as usize % stride != 0 && j as usize + 1500 < n {
+                continue;
+            }
             let g1 = guard(|| rs.select_1(j));
             let g0 = guard(|| rs.select_0(j));
             ctx.eval(2);
@@ -342,6 +353,15 @@ impl Monitor for C17 {
                 let mut zero = vec![true; n];
                 zero[n - 1] = false;
                 self.rs_case(ctx, &zero, 1, k, "single-zero");
+            } else if g >= 43 {
+                // dense vectors with more than 2^16 one-bits (resp. zero-bits) inside a single superblock
+                if ctx.tiny() {
+                    return;
+                }
+                let n = 100_000;
+                let dense: Vec<bool> = (0..n).map(|i| (i % 977 != 5) == (g == 43)).collect();
+                ctx.count("dense_vectors_with_more_than_65536_bits_per_superblock", 1);
+                self.rs_case_strided(ctx, &dense, 2, if g == 43 { 4096 } else { 1 << 20 }, "dense-big", 61);
             } else if g >= 40 {
                 if ctx.tiny() {
                     return;
